@@ -81,6 +81,14 @@ def run_one(seed, i, tier):
     if rs.random() < 0.5:
         # bias: warm up with relatives of the probe value (same op family, other types) - the shape of every known memo bug
         hist = [(probe[0] if rs.random() < 0.6 else o, v) for o, v in hist]
+    if rs.random() < 0.12:
+        # LONG history of rejected nested values (the store-or-fall-back idiom on bad records), then a valid nested probe:
+        # state leaked on the error path of a validator accumulates slowly
+        bad = [v for v in names if v.startswith("nested_bad") or v in ("set", "complex", "object", "intkeydict", "bothms_nested_bad")]
+        n = rs.choice([40, 80, 130])
+        o0 = rs.choice(opnames)
+        hist = [(o0 if rs.random() < 0.8 else rs.choice(opnames), rs.choice(bad)) for _ in range(n)]
+        probe = (rs.choice(opnames), rs.choice(["nested", "deep_valid", "dict", "list", "tuple"]))
     expected = fresh_outcome(*probe)
     # the warm-up + probe run in their own freshly forked child: the history is exactly `hist`
     got = run_isolated(_history_outcome, (hist, probe), timeout=60)
